@@ -17,6 +17,7 @@ def facts : Facts :=
       ⟨.default, .ifaceWrapper⟩],
     outerArms := ["isBinCall(c, c.scope)", "isRegularCall(c)", "default"],
     recvGuardNonIface := true,
+    recvGuardGetMethod := true,
     rcvrCond := (.or .variadicGt0 .numInGtArgs),
     variadicSub := 1,
     argTypeCmp := .ge,
@@ -64,10 +65,10 @@ def facts : Facts :=
 
 /-- fingerprints (extract/common FuncHash) of the functions Model/Boundary.lean was transcribed from -/
 def sourceHashes : List (String × String) :=
-  [("callBin", "91abce538f1eb63f"),
+  [("callBin", "b0eb89b1723622dd"),
    ("genFunctionWrapper", "4feabaa50796f8ae"),
    ("getFunc", "b1cec79847c23ec5"),
-   ("call", "382b1d010889c322"),
+   ("call", "4a0aae56534bcf37"),
    ("genInterfaceWrapper", "39c789f3e29ad824"),
    ("methodByName", "cf343e4f55a358c1"),
    ("getFrame", "48dc117bdbd1af33"),
@@ -158,6 +159,12 @@ def sourceHashes : List (String × String) :=
       setting / refreshing the root's run id and returns genHostFunctionWrapper(n); Symbols uses genHostFunctionWrapper;
       2db9fe7 — Execute no longer replaces interp.done. Epochs, run ids and cancellation are not modelled: the tied facts
       (frame of len(def.types) cells allocated per call, receiver binding, result slices) read as before;
+    * round-5 re-sync at HEAD 52cb9ff (reviewed against callBin 91abce538f1eb63f, call 382b1d010889c322; `git diff green-r4..HEAD`):
+      b1e4f7b (F07-3) callBin's receiver guard gains `c0.action == aGetMethod` (fact `recvGuardGetMethod`: no receiver offset for a
+      variable holding a method value); 1b5ab85 `call` gives every result a fresh cell (`nf.data[i] = reflect.New(def.types[i]).Elem()`)
+      and copies it to the destination after runCfg — what innerCall always did (fresh frame, results read from its first cells);
+      nothing else changed in a fingerprinted function (7c18bb6 doCompositeBinStruct, 0a3a691 _return, cfg.go / ast.go repairs
+      of F07-5/6/7/18 are outside the transcribed functions);
     * db2d0c1 (reviewed before, C02 F02-5): `call` skips a zero-valued argument only when its type differs from the
       parameter's; arguments of the parameter's type are always copied (what the model assumes for every argument);
     * 215471a / 2e388d6: runCfg's deferred loop calls runDeferred (own recover) with the frame lock released. -/
